@@ -98,44 +98,28 @@ class SupportBudget(Exception):
 
 
 class Proxy:
-    """counts support evaluations; forwards everything else (defined lazily as a ConvexCollider subclass)"""
-    _cls = None
+    """counts support evaluations of a collider WITHOUT hiding it: the counter is an instance attribute that shadows
+    support_function on the very object handed to the library, so its class, its attributes (margin, collider, vertices, ...) and
+    its identity stay what an application would pass.  (The first version wrapped the collider in a ConvexCollider subclass of
+    its own; a change that looks through Margin wrappers or dispatches on the collider class never saw its input then - seed
+    C01-7.)"""
 
     @classmethod
     def wrap(cls, inner):
-        if cls._cls is None:
-            from distance3d.colliders import ConvexCollider
+        if getattr(inner, "_verif_counting", False):
+            inner.calls = 0
+            return inner
+        orig = inner.support_function
 
-            class ProxyCollider(ConvexCollider):
-                def __init__(self, inner):
-                    super().__init__(None)
-                    self.inner, self.calls = inner, 0
-
-                def make_artist(self, c=None):
-                    pass
-
-                def first_vertex(self):
-                    return self.inner.first_vertex()
-
-                def support_function(self, d):
-                    self.calls += 1
-                    if self.calls > 1500:
-                        raise SupportBudget()
-                    return self.inner.support_function(d)
-
-                def center(self):
-                    return self.inner.center()
-
-                def update_pose(self, pose):
-                    self.inner.update_pose(pose)
-
-                def aabb(self):
-                    return self.inner.aabb()
-
-                def collider2origin(self):
-                    return self.inner.collider2origin()
-            cls._cls = ProxyCollider
-        return cls._cls(inner)
+        def counting(d, _o=orig, _c=inner):
+            _c.calls += 1
+            if _c.calls > 1500:
+                raise SupportBudget()
+            return _o(d)
+        inner.calls = 0
+        inner._verif_counting = True
+        inner.support_function = counting
+        return inner
 
 
 _OBS = {"flat": 0, "rows": 4}
